@@ -115,5 +115,36 @@ def main_gen_vm():
     sys.exit(1 if fails else 0)
 
 
+def main_dc_shift():
+    """DC OPF with a phase-shifting transformer whose loading limit binds, in both flow directions and for both signs of the shift"""
+    fails = []
+    for shift in (0., 30., 150., -30.):
+        for gen_side in ("lv", "hv"):
+            net = pp.create_empty_network()
+            hv = pp.create_bus(net, 110.); lv = pp.create_bus(net, 20.)
+            a, b = (hv, lv) if gen_side == "lv" else (lv, hv)        # slack + load on a, cheap generation on b
+            pp.create_ext_grid(net, a, min_p_mw=-300., max_p_mw=300.)
+            pp.create_load(net, a, 50., 0.)
+            pp.create_gen(net, b, p_mw=10., vm_pu=1., min_p_mw=0., max_p_mw=70., min_q_mvar=-50., max_q_mvar=50., controllable=True)
+            pp.create_transformer_from_parameters(net, hv, lv, sn_mva=25., vn_hv_kv=110., vn_lv_kv=20., vkr_percent=0.4, vk_percent=12., pfe_kw=10.,
+                                                  i0_percent=0.05, shift_degree=shift, max_loading_percent=100.)
+            pp.create_poly_cost(net, 0, "ext_grid", cp1_eur_per_mw=10.)
+            pp.create_poly_cost(net, 0, "gen", cp1_eur_per_mw=1.)
+            try:
+                pp.rundcopp(net)
+            except Exception as e:
+                print(f"note: shift {shift}, generation on {gen_side}: {type(e).__name__}")
+                continue
+            ld = net.res_trafo.loading_percent.at[0]
+            if ld > 100. + 1e-3:
+                fails.append(f"shift_degree {shift}, cheap generation on the {gen_side} side: the converged DC OPF loads the transformer with {ld:.1f} % "
+                             f"(max_loading_percent 100), gen dispatch {net.res_gen.p_mw.at[0]:.2f} MW")
+    for f in fails:
+        print("REPRODUCED:", f)
+    if not fails:
+        print("not reproduced: DC OPF results respect the loading limit of phase-shifting transformers")
+    sys.exit(1 if fails else 0)
+
+
 if __name__ == "__main__":
     main()
